@@ -647,7 +647,7 @@ def run_function1(ub, fs, tier='quick', solver=None, extra_defs=(), vacuity=True
         sflags = ['--external-sat-solver', 'kissat']
     else:
         sflags = ['--sat-solver', slv]
-    to = (fs.timeout if tier == 'quick' else max(fs.timeout, 3000)) if fs.timeout else (180 if tier == 'quick' else 1200)
+    to = (fs.timeout if tier == 'quick' else max(fs.timeout, 3000)) if fs.timeout else (900 if tier == 'quick' else 3000)
     cmd = ['cbmc'] + sflags + CBMC_CHECKS + fs.flags + ['--json-ui', gb2]
     rc, so, se, t = sh(cmd, timeout=to)
     R['cmds'].append(' '.join(cmd))
